@@ -5,7 +5,7 @@ extracted predicate c01_pair_ok evaluated on the implementation's own observatio
 import os, sys
 sys.path.insert(0, os.path.dirname(os.path.dirname(os.path.abspath(__file__))))
 import checklib as L
-from . import common, pairgen
+from . import common, pairgen, concgen
 
 KEEP = pairgen.NCFG
 
@@ -18,6 +18,9 @@ TRUSTED_BASE = common.BASE_TRUSTED + [
     "a collision would hide a difference",
 ]
 ASSUMPTIONS = [
+    "atomicity of the shared halves' methods (assumption 8.4) is not proved; for the send buffer it is VALIDATED on every run by the "
+    "two-thread component txconc (writer thread against grow / truncate_front / look-at-the-ring): a byte accepted by poll_write "
+    "that the dispatcher side never sees, or sees out of place, is a disagreement",
     "the network drops, duplicates, delays, reorders and size-filters datagrams; it never alters or forges one "
     "(UDP checksum; connection-id / address filtering is the socket dispatcher's job, C10/C12)",
     "assumed-and-monitored: c01_pair_ok is evaluated on every implementation trace of the run (it is the consequence the "
@@ -151,4 +154,6 @@ COMPONENTS = [
     # itself must hold; only the KF1 class (probes are in play) explains a failure
     {"name": "pair_sockdrop", "keep": KEEP, "gen": gen_sockdrop, "nontrivial": nontrivial, "classify": classify,
      "pred": pred_builder("c01_pair_ok")},
+    # the atomicity assumption behind the send-buffer theorems, tried on the real object by two threads
+    concgen.component_tx(),
 ]
